@@ -55,9 +55,8 @@ class C10(Prop):
                   "assembled message list back to the per-key outputs (filter over msgs_of/flush_calls), the one-line property of "
                   "rendered bodies, and the scheduled-case clauses on the model (results vs ghost lists); (ii) absolute conservation "
                   "for concurrent schedules outside the open class C10-rebase-straddle (only sequential: C10_absolute_conservation); "
-                  "(iii) idle-once for all schedules from an arbitrary no-more-updates configuration (proved from quiescent "
-                  "configurations; a non-quiescent one reaches quiescence after the first flush begun afterwards completes - argued, "
-                  "not proved). A first absolute racing a flush or another first absolute is the open finding C10-rebase-straddle. Histogram record racing a flush is only covered by the free-running stress (no value twice, none fabricated, "
+                  "(iii) idle-once suffix form is proved for a flusher that is between two counter flushes when the updates stop "
+                  "(C10_idle_once_suffix); a flush already in flight at that moment adds one more delta - argued, not proved. A first absolute racing a flush or another first absolute is the open finding C10-rebase-straddle. Histogram record racing a flush is only covered by the free-running stress (no value twice, none fabricated, "
                   "never-sent values within recorders x drains = open finding C10-record-vs-flush-late-claim inherited from C05); the "
                   "model's histogram is a sequential bag. The "
                   "payload parser of vlib/c10.py is trusted for the spec verdict on outputs that differ from the model.")
